@@ -2,6 +2,7 @@
 import json
 import os
 import random
+import subprocess
 from vlib.core import *
 
 SPEC = os.path.join(VERIF, "specs", "ChangeCache")
@@ -32,6 +33,8 @@ def run(ctx):
             conc.append({"mn": b["mn"], "w": b["w"], "mode": "conc", "g": rnd.choice([2, 3, 4]), "steps": steps})
     behs += conc
     replay_and_validate(ctx, behs, nseq)
+    if not q:
+        existing_tests(ctx)
     ctx.cov["rule"] = ("behaviours = every action sequence of length 5 over 4 document sequences + one unused range x MaxNum {0,1,100}, "
                        "plus seeded TLC simulations (one successor per action kind, arguments drawn with RandomElement) of length 12 over a window of 7 (document/principal/unused singles arriving up to twice, "
                        "8 unused ranges, document feed events with unused_sequences/recent_sequences through DocChanged, Tick, Abandon, MaxNum {0,1,2,100}, entries forged older than MaxWait), half of them restricted to legal "
@@ -72,13 +75,15 @@ def replay_and_validate(ctx, behs, nseq):
         raise Inconclusive("C08 harness failed:\n" + harness_failure(out))
     rows = read_ndjson(tr)
     ctx.cov["evaluations"] += len(behs)
-    nontriv, skipped_seen, late_seen, conc_n, cur = set(), 0, 0, 0, None
+    nontriv, skipped_seen, late_seen, conc_n, conc_steps, cur = set(), 0, 0, 0, 0, None
     for r in rows:
         if r["a"] == "Reset":
             cur = r["beh"]
             continue
         if r["a"] == "Conc":
             conc_n += 1
+        if r.get("conc"):
+            conc_steps += 1
         if r["skip"]:
             skipped_seen += 1
             nontriv.add(cur)
@@ -91,7 +96,8 @@ def replay_and_validate(ctx, behs, nseq):
         for st in b["steps"]:
             k = st["a"] if st["a"] != "Arrive" else "Arrive:" + st["kind"]
             hist[k] = hist.get(k, 0) + 1
-    ctx.cov["c08"] = {"sequential_behaviours": nseq, "concurrent_behaviours": conc_n, "trace_lines": len(rows),
+    ctx.cov["c08"] = {"sequential_behaviours": nseq, "concurrent_behaviours": len(behs) - nseq, "concurrent_final_state_only": conc_n,
+                      "concurrent_steps_linearized_by_hook": conc_steps, "trace_lines": len(rows),
                       "lines_with_skipped": skipped_seen, "lines_with_late_delivery": late_seen,
                       "action_histogram": hist,
                       "db_wired": sum(1 for r in rows if r["a"] == "Reset" and r.get("wiring") == "db")}
@@ -130,3 +136,232 @@ def trace_of(rows, line):
         if r["a"] == "Reset":
             start = i
     return rows[start:end]
+
+
+# --------------------------------------------------------------------------------------------
+# CCF style: the repository's own change-cache tests, unmodified, with hook H2 on (hooks/H2-changecache.patch)
+# --------------------------------------------------------------------------------------------
+EXISTING_DB = [
+    "TestLateSequenceErrorRecovery", "TestLateSequenceHandlingDuringCompact", "TestChannelCacheBufferingWithUserDoc",
+    "TestChannelCacheBackfill", "TestContinuousChangesBackfill", "TestLowSequenceHandling", "TestLowSequenceHandlingAcrossChannels",
+    "TestLowSequenceHandlingWithAccessGrant", "TestLateArrivingSequenceTriggersOnChange", "TestUnusedSequencesInSyncData",
+    "TestChangeCache_InsertPendingEntries", "TestProcessSkippedEntry", "TestProcessSkippedEntryStats", "TestSkippedSequenceCompact",
+    "TestReleasedSequenceRangeHandlingEverythingSkipped", "TestReleasedSequenceRangeHandlingEverythingPending",
+    "TestReleasedSequenceRangeHandlingEverythingPendingAndProcessPending", "TestReleasedSequenceRangeHandlingEverythingPendingLowPendingCapacity",
+    "TestReleasedSequenceRangeHandlingSingleSequence", "TestReleasedSequenceRangeHandlingEdgeCase1", "TestReleasedSequenceRangeHandlingEdgeCase2",
+    "TestReleasedSequenceRangeHandlingDuplicateSequencesInSkipped", "TestBroadcastFrequencyAfterSkippedCompact", "TestAddPendingLogs",
+    "TestChangeInBroadcastForSkipped", "TestUnblockPendingWithUnusedRange", "TestRecentSequenceHandlingForSkippedSequences",
+    "TestInitializeEmptyCache", "TestNotifyForInactiveChannel", "TestStopChangeCache", "TestChannelRace",
+]
+EXISTING = [
+    ("db", EXISTING_DB),
+    ("rest/changestest", ["TestChangesLoopingWhenLowSequence", "TestUnusedSequences", "TestChangesBackfillContinuationSkippedByCompoundLowSeq",
+                          "TestChangesBackfillGrantSuppressedByCompoundLowSeq"]),
+    ("rest", ["TestJumpInSequencesAtAllocatorSkippedSequenceFill", "TestJumpInSequencesAtAllocatorRangeInPending", "TestRequestPlusSkippedSequence"]),
+]
+# tests that put state into the cache behind the API: a rejection by pass C is expected there and only noted
+KNOWN_DIRECT = {
+    "TestStopChangeCache": "pushes a skipped entry straight into changeCache.skippedSeqs",
+    "TestAddPendingLogs": "pushes into pendingLogs and calls _addPendingLogs directly (forwards only, no action event)",
+}
+MAXW = 38   # Trace_ChangeCache_*_any.cfg: W = 40
+
+
+def hook_present():
+    f = os.path.join(REPO, "db", "change_cache.go")
+    return os.path.exists(f) and 'VerifEmit(verifObj(c), "entry"' in open(f, errors="replace").read()
+
+
+def convert_hook_events(evs, label):
+    """hook H2 events of ONE test process -> Trace_ChangeCache lines, one instance per cache `start`.
+    Sequences become offsets from that cache's initialSequence; skipped ranges are expanded; no-op ticks are dropped;
+    the `old` flags (TimeReceived older than MaxWait) are real-clock dependent and flip between events, so they are
+    normalised to false - these traces are validated with the *_any cfgs, where WHEN a gap is skipped is not judged;
+    star / lls are derived from the forwards (the hook does not read the channel cache)."""
+    objs = {}
+    for e in evs:
+        if str(e.get("obj", "")).startswith("*db.changeCache"):
+            objs.setdefault(e["obj"], []).append(e)
+    insts = []
+    for obj in sorted(objs):
+        cur = None
+        for e in sorted(objs[obj], key=lambda x: x["n"]):
+            if e["ev"] == "start":
+                cur = {"label": "%s#%d" % (label, len(insts)), "evs": [e]}
+                insts.append(cur)
+            elif e["ev"] == "clear":
+                cur = None          # Clear() re-bases the cache and drops pending entries: the instance ends here
+            elif cur is not None:
+                cur["evs"].append(e)
+    res = []
+    for inst in insts:
+        lines, why = convert_instance(inst)
+        res.append({"label": inst["label"], "lines": lines, "skipped_why": why,
+                    "events": sum(1 for l in (lines or []) if l["a"] != "Reset"),
+                    "forwards": sum(1 for e in inst["evs"] if e["ev"] == "fwd")})
+    return res
+
+
+def convert_instance(inst):
+    evs = inst["evs"]
+    init = evs[0]["init"]
+    off = lambda x: int(x) - init
+
+    def expand(ranges):
+        out = []
+        for a, b in ranges or []:
+            if b - a > 4 * MAXW:
+                return None
+            out += list(range(off(a), off(b) + 1))
+        return out
+    mx = 0
+    for e in evs:
+        for k in ("seq", "end", "next"):
+            if e.get(k):
+                mx = max(mx, off(e[k]))
+        for a, b in e.get("skip") or []:
+            mx = max(mx, off(b))
+        for p in e.get("pend") or []:
+            mx = max(mx, off(p[0]), off(p[1]) if p[1] else 0)
+    if mx > MAXW:
+        return None, "window %d > %d" % (mx, MAXW)
+
+    def post(e, star, lls):
+        sk = expand(e["skip"])
+        pend = sorted(({"seq": off(p[0]), "end": off(p[1]) if p[1] else 0, "kind": p[2], "old": False} for p in e["pend"]),
+                      key=lambda x: json.dumps(x, sort_keys=True))
+        return {"next": off(e["next"]), "pend": pend, "recv": sorted(off(x) for x in e["recv"]), "skip": sk, "nsk": len(sk),
+                "hcs": off(e["hcs"]), "stable": off(e["stable"]), "star": list(star), "lls": lls}
+    star, lls, fw = [], 0, []
+    first = evs[0]
+    lines = [dict({"a": "Reset", "beh": inst["label"], "mn": first["mn"], "w": mx + 2, "wiring": "existing-test", "out": []}, **post(first, star, lls))]
+    prev = lines[0]
+    for e in evs[1:]:
+        ev = e["ev"]
+        if ev == "fwd":
+            fw.append({"seq": off(e["seq"]), "end": off(e["end"]) if e["end"] else 0, "kind": e["kind"], "late": bool(e["late"]),
+                       "sk": expand(e["skip"]), "hcs": off(e["hcs"])})
+            continue
+        if ev == "entry" and e.get("disabled"):
+            continue
+        for f in fw:
+            if f["kind"] == "doc":
+                star = sorted(star + [f["seq"]])
+                if f["late"]:
+                    lls = f["seq"]
+        if ev == "abandon":
+            sk = expand(e["skip"])
+            line = dict(prev, a="Abandon", skip=sk, nsk=len(sk), out=fw, star=list(star), lls=lls,
+                        stable=(min(sk) - 1) if sk else prev["next"] - 1)
+        else:
+            line = dict(post(e, star, lls), out=fw)
+            if ev == "entry":
+                line.update(a="Arrive", seq=off(e["seq"]), end=off(e["end"]) if e["end"] else 0, kind=e["kind"], old=False, sk=bool(e["sk"]))
+            elif ev == "range":
+                line.update(a="Range", seq=off(e["seq"]), end=off(e["end"]), kind="unused", old=False)
+            elif ev == "tick":
+                line.update(a="Tick")
+                if not fw and all(line[k] == prev[k] for k in ("next", "pend", "recv", "hcs")):
+                    # a sweep that did nothing (tests run it every few nanoseconds).  skip/stable are not compared: a sweep cannot
+                    # change the skipped list without advancing next, and its snapshot may be older than a concurrent `abandon`
+                    # event (CleanSkippedSequenceQueue does not take c.lock, and hook arguments are read before the event is numbered)
+                    continue
+            else:
+                continue
+        if line["a"] in ("Tick", "Abandon"):
+            for k in ("seq", "end", "kind", "old", "sk", "beh", "mn", "w", "wiring"):
+                line.pop(k, None)
+        fw = []
+        lines.append(line)
+        prev = line
+    return lines, None
+
+
+def existing_tests(ctx):
+    if not hook_present():
+        ctx.notes.append("hook H2 (hooks/H2-changecache.patch) is not applied to %s: existing-tests validation skipped" % REPO)
+        return
+    e = go_env()
+    insts, failed, ntests = [], [], 0
+    for pkg, tests in EXISTING:
+        exe = os.path.join(ctx.scratch, "c08-%s.test" % pkg.replace("/", "_"))
+        p = subprocess.run(["go", "test", "-c", "-tags", "verif", "-vet=off", "-o", exe, "./" + pkg], cwd=REPO, env=e,
+                           stdout=subprocess.PIPE, stderr=subprocess.STDOUT, text=True, errors="replace")
+        if p.returncode != 0 or not os.path.exists(exe):
+            raise Inconclusive("cannot build the %s test binary with -tags verif:\n%s" % (pkg, p.stdout[-2000:]))
+        for t in tests:
+            ntests += 1
+            hook = os.path.join(ctx.scratch, "c08-ex-%s.ndjson" % t)
+            e2 = dict(e, VERIF_HOOK_TRACE=hook)
+            try:
+                r = subprocess.run([exe, "-test.run", "^%s$" % t, "-test.count=1", "-test.timeout", "300s"], cwd=os.path.join(REPO, pkg), env=e2,
+                                   stdout=subprocess.PIPE, stderr=subprocess.STDOUT, text=True, errors="replace", timeout=400)
+                rc = r.returncode
+            except subprocess.TimeoutExpired:
+                rc = -1
+            if rc != 0:
+                failed.append(t)
+            if os.path.exists(hook):
+                insts += convert_hook_events(read_ndjson(hook), t)
+        os.remove(exe)
+    usable = [i for i in insts if i["lines"] and i["events"] > 0]
+    too_big = [i["label"] + ": " + i["skipped_why"] for i in insts if i["skipped_why"]]
+    fwd_only = [i["label"] for i in insts if i["lines"] and i["events"] == 0 and i["forwards"] > 0]
+    log("  existing tests with hook H2: %d tests (%d failed), %d cache instances, %d with events, %d outside the window"
+        % (ntests, len(failed), len(insts), len(usable), len(too_big)))
+    # pass C first (any skipping policy: real clocks): an instance the spec does not explain - typically a test that pushes into
+    # pendingLogs / calls _addPendingLogs directly - is reported as NONCONFORMANCE and not judged; the others go through pass P
+    rejected = []
+    conforming = list(usable)
+    for _ in range(12):
+        if not conforming:
+            break
+        tr = os.path.join(ctx.scratch, "c08-existing-C%d.ndjson" % len(rejected))
+        rows = [l for i in conforming for l in i["lines"]]
+        write_ndjson(tr, rows)
+        vc = validate(ctx, SPEC, "Trace_ChangeCache", "Trace_ChangeCache_C_any.cfg", tr, timeout=3000, tag="existingC%d" % len(rejected))
+        if not vc.inv and vc.accepted:
+            break
+        idx = min(len(rows), max(1, (vc.line or 1) - (1 if vc.inv else 0))) - 1      # the line that was not accepted
+        bad, _ = locate_label(rows, idx)
+        row = rows[idx]
+        rejected.append({"instance": bad, "invariant": vc.inv, "line": {k: row.get(k) for k in ("a", "seq", "end", "kind", "sk", "next", "pend", "skip", "out")}})
+        conforming = [i for i in conforming if i["label"] != bad]
+    else:
+        raise Inconclusive("existing tests: more than 12 non-conforming cache instances: %s" % [r["instance"] for r in rejected])
+    ctx.cov["existing_tests"] = {"tests": ntests, "tests_failed": failed, "forwards_without_action_event": fwd_only, "cache_instances": len(insts), "instances_with_events": len(usable),
+                                 "events": sum(i["events"] for i in usable), "outside_window": too_big,
+                                 "conforming_instances": len(conforming), "conforming_events": sum(i["events"] for i in conforming),
+                                 "nonconforming": rejected}
+    for r in rejected:
+        why = KNOWN_DIRECT.get(str(r["instance"]).split("#")[0])
+        r["expected"] = why
+        if why:
+            ctx.notes.append("existing test instance %s not judged: the test %s" % (r["instance"], why))
+        else:
+            ctx.cov["nonconformance"] += 1
+            ctx.notes.append("existing test instance %s not explained by the spec (pass C, %s) - not judged: %s" % (r["instance"], r["invariant"], json.dumps(r["line"])[:300]))
+    if not conforming:
+        return
+    tr = os.path.join(ctx.scratch, "c08-existing-P.ndjson")
+    rows = [l for i in conforming for l in i["lines"]]
+    write_ndjson(tr, rows)
+    ctx.cov["evaluations"] += len(conforming)
+    vp = validate(ctx, SPEC, "Trace_ChangeCache", "Trace_ChangeCache_P_any.cfg", tr, timeout=3000, tag="existingP")
+    if vp.inv:
+        bad, start = locate_label(rows, max(0, (vp.line or 2) - 2))
+        report_violation(ctx, "existing:%s:%s" % (bad, vp.inv), "repository test %s: real changeCache breaks %s at event %s" % (bad, vp.inv, vp.line),
+                         {"instance": bad, "invariant": vp.inv, "state": (vp.state or {}).get("_txt"), "trace": rows[start:max(0, (vp.line or 1) - 1)]})
+        return
+    if not vp.accepted:
+        raise Inconclusive("existing tests: pass P stopped at line %s of %s\n%s" % (vp.line, vp.total, vp.out[-1500:]))
+    ctx.cov["traces_validated_against_impl"] += len(conforming)
+    ctx.cov["distinct_nontrivial"] += sum(1 for i in conforming if any(l["skip"] or any(o["late"] for o in l["out"]) for l in i["lines"]))
+
+
+def locate_label(rows, idx):
+    """instance (Reset label, index of its Reset row) that the 0-based row idx belongs to"""
+    for i in range(min(idx, len(rows) - 1), -1, -1):
+        if rows[i]["a"] == "Reset":
+            return rows[i]["beh"], i
+    return None, 0
